@@ -435,13 +435,27 @@ fn step(ctx: &mut Ctx, w: &mut World, live: &mut Vec<Live>, acts: &[Act], k: usi
             let class = file.class(page);
             let sig = || format!("MemoryMap.new[{}]", class);
             let path = w.paths[fid].clone();
+            // A fresh inaccessible page first: the kernel places mappings top-down, so the library's mapping
+            // lands directly below it and the page AFTER the map is ours (harmless if a drop unmaps too much,
+            // and the same in a replay process).
+            let pre = unsafe { libc::mmap(std::ptr::null_mut(), page, libc::PROT_NONE, libc::MAP_PRIVATE | libc::MAP_ANONYMOUS, -1, 0) };
+            let pre = if pre == libc::MAP_FAILED { None } else { Some(pre as usize) };
             let got = match guard(|| MemoryMap::new(&path, mode.lib())) {
                 Ok(r) => r,
                 Err(msg) => {
+                    if let Some(a) = pre {
+                        unsafe { libc::munmap(a as *mut libc::c_void, page) };
+                    }
                     ctx.panic_violation(&sig(), &msg, None, case);
                     return false;
                 }
             };
+            let mut pre = pre;
+            if got.is_err() || !file.mappable() {
+                if let Some(a) = pre.take() {
+                    unsafe { libc::munmap(a as *mut libc::c_void, page) };
+                }
+            }
             let vmas = w.read_maps();
             let map = match (got, file.mappable()) {
                 (Err(_), false) => {
@@ -604,7 +618,17 @@ fn step(ctx: &mut Ctx, w: &mut World, live: &mut Vec<Live>, acts: &[Act], k: usi
                 }
                 let (glo, ghi) = (base, base + round_up(want_len * 8, page));
                 let guard_before = if want_len > 0 && glo >= page { place_guard(glo - page, page) } else { None };
-                let guard_after = if want_len > 0 { place_guard(ghi, page) } else { None };
+                let guard_after = match pre.take() {
+                    Some(a) if want_len > 0 && a == ghi => Some(a),
+                    Some(a) => {
+                        unsafe { libc::munmap(a as *mut libc::c_void, page) };
+                        if want_len > 0 { place_guard(ghi, page) } else { None }
+                    }
+                    None => if want_len > 0 { place_guard(ghi, page) } else { None },
+                };
+                if guard_after.is_some() {
+                    ctx.count("maps_with_a_guard_page_after", 1);
+                }
                 if guard_before.is_some() || guard_after.is_some() {
                     ctx.count("maps_with_guard_pages", 1);
                 }
